@@ -1,18 +1,114 @@
 (** C03 — The lattice contains exactly the formal concepts of the context, once each.
-    STATUS: [_partial].  Proved: every candidate the enumeration generates (the closure
-    pair returned by doubleprime) is a formal concept; the start of the enumeration is the
-    least concept; the top is a concept and the greatest; an all-crosses table has exactly
-    one closed extent.  Not yet proved in this revision: completeness and uniqueness of the
-    Lindig heap loop as a theorem about [build_lattice]; that part is decided by the
-    correspondence (model evaluated in Coq against the implementation's lattice). *)
-From Coq Require Import ZArith List Bool.
-From Concepts Require Import Base.Res Base.PyInt Base.BitSet Spec.FCA Spec.Context
+
+    "iterating context.lattice yields every pair (A, B) with A' = B and B' = A, and nothing else,
+    with no pair repeated; len(lattice) is that number.  The bottom (closure of the empty object
+    set) and the top (all objects) are always present, and an all-crosses table has a
+    one-element lattice."
+
+    END-TO-END: the theorems are about the value [L] returned by the model of [Context.lattice]
+    ([build_lattice] = lindig.lattice's heap loop + Lattice.__init__), under [wf_ctx c] and
+    enough fuel for the derivation loops only.  [C03_terminates] shows that the hypothesis
+    [build_lattice fuel dfuel (relation_new c) = Ok L] is satisfiable for every well-formed
+    context (with enough loop fuel), so none of the statements is vacuous.
+    [concept_at L i x]: [x] is the i-th pair yielded by iterating the lattice. *)
+From Coq Require Import ZArith List Bool Lia.
+From Concepts Require Import Base.Res Base.PyInt Base.BitSet Spec.FCA Spec.Context Spec.LatticeSpec
   Model.Matrices Model.ContextApi Model.Lattice Proofs.Matrices Proofs.ContextApi Proofs.Closure
-  Proofs.LatticeBasics.
+  Proofs.LatticeBasics Proofs.BuildLattice Proofs.LatticeQueries Proofs.LatticeLabels Proofs.Assemble.
 Import ListNotations.
 Open Scope Z_scope.
 
-Theorem C03_candidates_are_concepts_partial : forall fuel c A,
+(** * termination: [Context.lattice] returns a lattice for every context *)
+
+Theorem C03_terminates : forall dfuel c, wf_ctx c -> (Nat.max (nG c) (nM c) <= dfuel)%nat ->
+  exists fuel0, forall fuel, (fuel0 <= fuel)%nat -> exists L, build_lattice fuel dfuel (relation_new c) = Ok L.
+Proof. exact build_lattice_terminates. Qed.
+
+(** * every concept, and nothing else *)
+
+Theorem C03_exactly_the_concepts : forall fuel dfuel c L,
+  wf_ctx c -> (Nat.max (nG c) (nM c) <= dfuel)%nat -> build_lattice fuel dfuel (relation_new c) = Ok L ->
+  forall A B, (exists i x, concept_at L i x /\ c_extent x = A /\ c_intent x = B) <-> is_concept c A B.
+Proof.
+  intros fuel dfuel c L Hwf Hd HB.
+  exact (members_exactly_concepts c L (build_lattice_ok fuel dfuel c L Hwf Hd HB)).
+Qed.
+
+(** * no pair repeated (already the extents are pairwise distinct) *)
+
+Theorem C03_no_repeats : forall fuel dfuel c L,
+  wf_ctx c -> (Nat.max (nG c) (nM c) <= dfuel)%nat -> build_lattice fuel dfuel (relation_new c) = Ok L ->
+  NoDup (map c_extent (l_concepts L)).
+Proof.
+  intros fuel dfuel c L Hwf Hd HB.
+  exact (members_extents_NoDup c L (build_lattice_ok fuel dfuel c L Hwf Hd HB)).
+Qed.
+
+Theorem C03_no_repeated_member : forall fuel dfuel c L,
+  wf_ctx c -> (Nat.max (nG c) (nM c) <= dfuel)%nat -> build_lattice fuel dfuel (relation_new c) = Ok L ->
+  NoDup (l_concepts L).
+Proof.
+  intros fuel dfuel c L Hwf Hd HB.
+  exact (concepts_NoDup c L (build_lattice_ok fuel dfuel c L Hwf Hd HB)).
+Qed.
+
+(** * len(lattice): the number of members = the number of entries of the extent mapping, and
+      that mapping lists the closed extents (= the concepts, [C03_closed_extents_are_concepts])
+      once each *)
+
+Theorem C03_len : forall fuel dfuel c L,
+  wf_ctx c -> (Nat.max (nG c) (nM c) <= dfuel)%nat -> build_lattice fuel dfuel (relation_new c) = Ok L ->
+  length (l_concepts L) = length (l_exts L) /\ l_exts L = map c_extent (l_concepts L) /\
+  NoDup (l_exts L) /\ (forall A, In A (l_exts L) <-> closedO c A).
+Proof.
+  intros fuel dfuel c L Hwf Hd HB.
+  exact (members_count c L (build_lattice_ok fuel dfuel c L Hwf Hd HB)).
+Qed.
+
+Theorem C03_closed_extents_are_concepts : forall c A, closedO c A <-> is_concept c A (upO c A).
+Proof. intros c A. split; [apply closed_concept|apply Concepts.Spec.Context.concept_closed]. Qed.
+
+(** * bottom and top are present: first and last *)
+
+Theorem C03_bottom_present : forall fuel dfuel c L,
+  wf_ctx c -> (Nat.max (nG c) (nM c) <= dfuel)%nat -> build_lattice fuel dfuel (relation_new c) = Ok L ->
+  exists x, concept_at L 0 x /\ c_extent x = clO c 0 /\ c_intent x = upO c 0.
+Proof.
+  intros fuel dfuel c L Hwf Hd HB.
+  exact (LatticeQueries.infimum_first c L dfuel (build_lattice_ok fuel dfuel c L Hwf Hd HB) Hd).
+Qed.
+
+Theorem C03_top_present : forall fuel dfuel c L,
+  wf_ctx c -> (Nat.max (nG c) (nM c) <= dfuel)%nat -> build_lattice fuel dfuel (relation_new c) = Ok L ->
+  exists x, concept_at L (length (l_concepts L) - 1) x
+    /\ c_extent x = ones (nG c) /\ c_intent x = upO c (ones (nG c)).
+Proof.
+  intros fuel dfuel c L Hwf Hd HB.
+  exact (supremum_last c L dfuel (build_lattice_ok fuel dfuel c L Hwf Hd HB) Hd).
+Qed.
+
+Theorem C03_nonempty : forall fuel dfuel c L,
+  wf_ctx c -> (Nat.max (nG c) (nM c) <= dfuel)%nat -> build_lattice fuel dfuel (relation_new c) = Ok L ->
+  (0 < length (l_concepts L))%nat.
+Proof.
+  intros fuel dfuel c L Hwf Hd HB.
+  exact (size_pos c L dfuel (build_lattice_ok fuel dfuel c L Hwf Hd HB) Hd).
+Qed.
+
+(** * an all-crosses table has a one-element lattice *)
+
+Theorem C03_all_crosses_one_element : forall fuel dfuel c L,
+  wf_ctx c -> (Nat.max (nG c) (nM c) <= dfuel)%nat -> build_lattice fuel dfuel (relation_new c) = Ok L ->
+  (forall g m, (g < nG c)%nat -> (m < nM c)%nat -> inc c g m = true) ->
+  length (l_concepts L) = 1%nat.
+Proof.
+  intros fuel dfuel c L Hwf Hd HB.
+  exact (all_crosses_single c L (build_lattice_ok fuel dfuel c L Hwf Hd HB) dfuel Hd).
+Qed.
+
+(** * spec-level facts used above *)
+
+Theorem C03_candidates_are_concepts : forall fuel c A,
   wf_ctx c -> in_range (nG c) A -> (Nat.max (nG c) (nM c) <= fuel)%nat ->
   exists E F, objects_doubleprime fuel (relation_new c) A = Ok (E, F) /\ is_concept c E F.
 Proof.
@@ -33,7 +129,33 @@ Theorem C03_all_crosses : forall c,
   forall E, closedO c E -> E = ones (nG c).
 Proof. exact all_crosses_one_concept. Qed.
 
+(** * witnesses *)
+
 Example C03_witness :
   let c := mkCtx 3 3 [5; 3; 6] in
   (do L <- build_lattice 10 4 (relation_new c) ;; Ok (map c_extent (l_concepts L))) = Ok [0; 1; 2; 4; 3; 5; 6; 7].
 Proof. vm_compute. reflexivity. Qed.
+
+(** rows {0,1}, {1,2}, {2,3}, {0,1,2}: eight (extent, intent) pairs, not a Boolean lattice *)
+Example C03_witness_lattice :
+  let c := mkCtx 4 4 [3; 6; 12; 7] in
+  wf_ctx c /\ (Nat.max (nG c) (nM c) <= 4)%nat /\
+  exists L, build_lattice 20 4 (relation_new c) = Ok L /\
+    map (fun x => (c_extent x, c_intent x)) (l_concepts L)
+    = [(0, 15); (4, 12); (8, 7); (9, 3); (10, 6); (11, 2); (14, 4); (15, 0)].
+Proof.
+  cbv zeta. split; [apply wf_ctxb_sound; vm_compute; reflexivity|]. split; [apply le_by_leb; vm_compute; reflexivity|].
+  apply witness_intro. vm_compute. reflexivity.
+Qed.
+
+(** an all-crosses table *)
+Example C03_witness_all_crosses :
+  let c := mkCtx 2 3 [7; 7] in
+  wf_ctx c /\ (forall g m, (g < nG c)%nat -> (m < nM c)%nat -> inc c g m = true) /\
+  exists L, build_lattice 5 3 (relation_new c) = Ok L /\
+    map (fun x => (c_extent x, c_intent x)) (l_concepts L) = [(3, 7)].
+Proof.
+  cbv zeta. split; [apply wf_ctxb_sound; vm_compute; reflexivity|]. split.
+  - intros [|[|g]] [|[|[|m]]] Hg Hm; cbn in Hg, Hm; try lia; reflexivity.
+  - apply witness_intro. vm_compute. reflexivity.
+Qed.
